@@ -43,5 +43,3 @@ func c01Tokenizer(c *Ctx) {
 	r.Extra("tokenizer_loops", nl)
 	r.Assume("tokenizer progress atoms (pos.AdvanceRune, pos.Index += rune size) are only executed below len(input): each is preceded by a read of input[pos] whose bounds obligation is part of the index-bounds rule")
 }
-
-func c01Panics(c *Ctx) {}
